@@ -41,7 +41,8 @@ def _facts(ctx):
 
 
 def run(ctx):
-    ctx.lean_obligations(["SV.Props.C04"], drivers=["svdriver_c04"])
+    ctx.regen_go2lean()
+    ctx.lean_obligations(["SV.Props.C04", "SV.Props.C04gen"], drivers=["svdriver_c04"])
     quick = ctx.tier == "quick"
     _facts(ctx)
     # fs/layer binary: footers, estargz.Open + Reader walk, memory store + walk, fs/reader (Cache,
